@@ -249,3 +249,82 @@ Proof.
   destruct (authenticate answer (a :: rest)) as [x|] eqn:E; [|reflexivity].
   assert (sat answer (a :: rest) = true) by (apply (authenticate_iff_sat answer _ NA); now exists x). congruence.
 Qed.
+
+(* ---------------- C03: array parameters ---------------- *)
+Lemma conv_items_spec t l vs :
+  conv_items t l = Some vs <-> Forall2 (fun raw v => convert t raw = Some v /\ valid_value t v = true) l vs.
+Proof.
+  revert vs. induction l as [|x r IH]; intros vs; cbn [conv_items].
+  - split; [intros H; inversion H; constructor | intros H; inversion H; reflexivity].
+  - destruct (convert t x) as [v|] eqn:C.
+    + destruct (valid_value t v) eqn:V.
+      * destruct (conv_items t r) as [vr|] eqn:R; cbn [option_map].
+        -- split.
+           ++ intros H. inversion H; subst. constructor; [split; assumption | apply IH; reflexivity].
+           ++ intros H. inversion H as [|? ? ? ? [C' V'] HR]; subst. rewrite C in C'. inversion C'; subst.
+              apply IH in HR. inversion HR. reflexivity.
+        -- split; [discriminate|]. intros H. inversion H as [|? ? ? ? _ HR]; subst. apply IH in HR. discriminate.
+      * split; [discriminate|]. intros H. inversion H as [|? ? ? ? [C' V'] _]; subst. rewrite C in C'. inversion C'; subst. congruence.
+    + split; [discriminate|]. intros H. inversion H as [|? ? ? ? [C' _] _]; subst. congruence.
+Qed.
+
+Lemma Forall2_fun {A B} (R : A -> B -> Prop) l a b : (forall x y z, R x y -> R x z -> y = z) -> Forall2 R l a -> Forall2 R l b -> a = b.
+Proof.
+  intros F H. revert b. induction H as [|x y l' a' Hxy H IH]; intros b Hb; inversion Hb; subst; [reflexivity|].
+  f_equal; [eapply F; eassumption | apply IH; assumption].
+Qed.
+
+Theorem bind_array_iff p rd hk : bind_array p rd hk <> AReject <-> areq_ok p rd hk.
+Proof.
+  unfold bind_array, areq_ok. destruct (ap_required p) eqn:R; destruct hk; cbn [andb negb].
+  - destruct (items_of p rd) as [|i0 ir] eqn:I.
+    + split; [intros H; contradiction H; reflexivity | intros [_ [H _]]; specialize (H eq_refl); discriminate].
+    + destruct (conv_items (ap_elem p) (i0 :: ir)) as [vs|] eqn:C.
+      * destruct (count_ok p vs && (if ap_unique p then distinct_values vs else true)) eqn:K.
+        -- split; [|discriminate]. intros _. split; [reflexivity|]. split; [discriminate|]. intros _.
+           exists vs. apply andb_prop in K as [K1 K2]. split; [apply conv_items_spec; exact C|]. split; [exact K1|].
+           intros U. rewrite U in K2. exact K2.
+        -- split; [intros H; contradiction H; reflexivity|]. intros [_ [_ H]]. destruct (H ltac:(discriminate)) as [vs' [F [K1 K2]]].
+           apply conv_items_spec in F. rewrite C in F. inversion F; subst vs'. rewrite K1 in K. cbn [andb] in K.
+           destruct (ap_unique p); [rewrite (K2 eq_refl) in K; discriminate | discriminate].
+      * split; [intros H; contradiction H; reflexivity|]. intros [_ [_ H]]. destruct (H ltac:(discriminate)) as [vs' [F _]].
+        apply conv_items_spec in F. congruence.
+  - split; [intros H; contradiction H; reflexivity | intros [H _]; specialize (H eq_refl); discriminate].
+  - destruct (items_of p rd) as [|i0 ir] eqn:I.
+    + split; [|discriminate]. intros _. split; [discriminate|]. split; [reflexivity|]. intros H. contradiction H. reflexivity.
+    + destruct (conv_items (ap_elem p) (i0 :: ir)) as [vs|] eqn:C.
+      * destruct (count_ok p vs && (if ap_unique p then distinct_values vs else true)) eqn:K.
+        -- split; [|discriminate]. intros _. split; [discriminate|]. split; [discriminate|]. intros _.
+           exists vs. apply andb_prop in K as [K1 K2]. split; [apply conv_items_spec; exact C|]. split; [exact K1|].
+           intros U. rewrite U in K2. exact K2.
+        -- split; [intros H; contradiction H; reflexivity|]. intros [_ [_ H]]. destruct (H ltac:(discriminate)) as [vs' [F [K1 K2]]].
+           apply conv_items_spec in F. rewrite C in F. inversion F; subst vs'. rewrite K1 in K. cbn [andb] in K.
+           destruct (ap_unique p); [rewrite (K2 eq_refl) in K; discriminate | discriminate].
+      * split; [intros H; contradiction H; reflexivity|]. intros [_ [_ H]]. destruct (H ltac:(discriminate)) as [vs' [F _]].
+        apply conv_items_spec in F. congruence.
+  - destruct (items_of p rd) as [|i0 ir] eqn:I.
+    + split; [|discriminate]. intros _. split; [discriminate|]. split; [reflexivity|]. intros H. contradiction H. reflexivity.
+    + destruct (conv_items (ap_elem p) (i0 :: ir)) as [vs|] eqn:C.
+      * destruct (count_ok p vs && (if ap_unique p then distinct_values vs else true)) eqn:K.
+        -- split; [|discriminate]. intros _. split; [discriminate|]. split; [discriminate|]. intros _.
+           exists vs. apply andb_prop in K as [K1 K2]. split; [apply conv_items_spec; exact C|]. split; [exact K1|].
+           intros U. rewrite U in K2. exact K2.
+        -- split; [intros H; contradiction H; reflexivity|]. intros [_ [_ H]]. destruct (H ltac:(discriminate)) as [vs' [F [K1 K2]]].
+           apply conv_items_spec in F. rewrite C in F. inversion F; subst vs'. rewrite K1 in K. cbn [andb] in K.
+           destruct (ap_unique p); [rewrite (K2 eq_refl) in K; discriminate | discriminate].
+      * split; [intros H; contradiction H; reflexivity|]. intros [_ [_ H]]. destruct (H ltac:(discriminate)) as [vs' [F _]].
+        apply conv_items_spec in F. congruence.
+Qed.
+
+(* what the handler sees: the typed, validated values of the items, in order *)
+Theorem bind_array_values p rd hk vs : bind_array p rd hk = ABound vs ->
+  Forall2 (fun raw v => convert (ap_elem p) raw = Some v /\ valid_value (ap_elem p) v = true) (items_of p rd) vs /\
+  count_ok p vs = true /\ (ap_unique p = true -> distinct_values vs = true).
+Proof.
+  unfold bind_array. destruct (ap_required p && negb hk); [discriminate|].
+  destruct (items_of p rd) as [|i0 ir] eqn:I; [destruct (ap_required p); discriminate|].
+  destruct (conv_items (ap_elem p) (i0 :: ir)) as [ws|] eqn:C; [|discriminate].
+  destruct (count_ok p ws && (if ap_unique p then distinct_values ws else true)) eqn:K; [|discriminate].
+  intros H. inversion H; subst ws. apply andb_prop in K as [K1 K2]. split; [apply conv_items_spec; exact C|]. split; [exact K1|].
+  intros U. rewrite U in K2. exact K2.
+Qed.
